@@ -100,6 +100,12 @@ inductive CV where
   | none
   | list (xs : List CV)
   | map (kvs : List (String × CV))
+  /-- raw bytes (`Value::from_bytes`, serde bytes) -/
+  | bytes (bs : List Nat)
+  /-- a float, by the text of its `Display` -/
+  | float (cs : List Char)
+  /-- any object that is neither a sequence nor a map, by the text its `render` writes -/
+  | obj (text : String)
   deriving Inhabited
 
 mutual
@@ -110,6 +116,9 @@ def CV.toV : CV → V
   | .none => .none
   | .list xs => .seq (CV.toVL xs)
   | .map kvs => .map (CV.toVM kvs)
+  | .bytes bs => .bytes bs
+  | .float cs => .float cs
+  | .obj t => .obj (ofData t)
 def CV.toVL : List CV → List V
   | [] => []
   | x :: xs => x.toV :: CV.toVL xs
